@@ -255,6 +255,10 @@ def run_real(case):
         fr = prog.get("Frand")
         rec = {"Frand": fr if fr is not None else recorded_frand(0)}
         rec["const"], rec["visf"] = constants(S)  # the configuration in force at THIS run
+        try:
+            rec["cnTemp_readback"] = None if S.opcond.cnTemp is None else float(S.opcond.cnTemp)
+        except Exception as e:
+            rec["cnTemp_readback"] = {"raise": core.exc_class(e)}
         with scripted_frand(fr):
             try:
                 with warnings.catch_warnings():
